@@ -640,10 +640,15 @@ VARIANTS = [
                     self.load = np.append(self.load, month_rate)""")]),
     Variant("same-day branch emits pulses in months outside the retention window", "break",
             [(GL, """                if ipf[i]:
-                    # monthly average conditions before cooling peak
-                    if self.monthly_peak_cl[i] > 0 and ipf[i]:""", """                if ipf[i] or self.monthly_peak_cl[i] > 0:
-                    # monthly average conditions before cooling peak
-                    if self.monthly_peak_cl[i] > 0:""")], "R07.1"),
+                    # The cooling peak ends and the heating peak starts at noon of the common peak day.""", """                if ipf[i] or self.monthly_peak_cl[i] > 0:
+                    # The cooling peak ends and the heating peak starts at noon of the common peak day."""),
+             (GL, """                    # monthly average conditions before cooling peak
+                    if self.monthly_peak_cl[i] > 0 and ipf[i]:
+                        # last_avg_hour = first_hour_cooling_peak - 1 JDS corrected 20200604
+                        last_avg_hour = cooling_peak_start""", """                    # monthly average conditions before cooling peak
+                    if self.monthly_peak_cl[i] > 0:
+                        # last_avg_hour = first_hour_cooling_peak - 1 JDS corrected 20200604
+                        last_avg_hour = cooling_peak_start""")], "R07.1"),
     Variant("two-day window starts on the peak day", "break",
             [(GL, "monthly_peak_cl_hour_start = hours_in_previous_months + (monthly_peak_cl_day - 1) * HRS_IN_DAY",
               "monthly_peak_cl_hour_start = hours_in_previous_months + monthly_peak_cl_day * HRS_IN_DAY")], "R07.4"),
